@@ -970,6 +970,9 @@ class _Simu(_IObserver, _params.Updatable, ABC):
         # switching to another mesh in the history changes the connectivity
         clear_cached_computed_values(self)
 
+        # the solutions of the other mesh do not have the right size (Set_Iter then sets the stored ones)
+        self.__Init_Sols_n()
+
         self.Need_Update()  # need to reconstruct matrices
 
     def _Update(self, observable: Observable, event: str) -> None:
